@@ -25,6 +25,8 @@ import (
 	"sync"
 	"syscall"
 	"time"
+
+	"github.com/trzsz/trzsz-go/trzsz"
 )
 
 func init() { groups["handshake"] = genHandshake }
@@ -284,4 +286,85 @@ func genHandshake(c *ctx) {
 			c.violate("handshake-hang:"+h.key4(), "with a hostile value in the handshake the two sides did not end within the deadline", detail)
 		}
 	}
+}
+
+// ---- the acknowledgement goroutine in a child (group guards) ----
+
+type c12EvoJob struct {
+	MaxBuf int64   `json:"maxbuf"`
+	Lens   []int64 `json:"lens"`
+	Ms     []int64 `json:"ms"`
+}
+
+type c12EvoResult struct {
+	Used      []int64 `json:"used"`
+	Sizes     []int64 `json:"sizes"`
+	MakePanic string  `json:"make_panic"`
+	Err       string  `json:"err"`
+}
+
+// c12ChildEvo prints "C12EVO <index> <json>" per case, in order; if the process dies the parent
+// knows from the last line which case was running.
+func c12ChildEvo(job *c12Job) {
+	lim := syscall.Rlimit{Cur: 12 << 30, Max: 12 << 30}
+	_ = syscall.Setrlimit(syscall.RLIMIT_AS, &lim)
+	for i, e := range job.Evo {
+		var r c12EvoResult
+		r.Used, r.Sizes, r.MakePanic, r.Err = trzsz.VerifBufsizeEvolution(e.MaxBuf, e.Lens, e.Ms)
+		js, _ := json.Marshal(r)
+		fmt.Printf("C12EVO %d %s\n", i, js)
+	}
+	fmt.Println("C12EVO done")
+}
+
+// c12RunEvoChild runs the cases in one child. It returns the results of the cases that completed, the
+// index of the case during which the child died (-1: none) and the crash text.
+func c12RunEvoChild(work string, cases []c12EvoJob) (results []c12EvoResult, crashedAt int, crashText string) {
+	dir, _ := os.MkdirTemp(work, "evo")
+	defer os.RemoveAll(dir)
+	js, _ := json.Marshal(c12Job{Role: "bufevo", Evo: cases})
+	jobPath := filepath.Join(dir, "job.json")
+	os.WriteFile(jobPath, js, 0644)
+	exe, _ := os.Executable()
+	cmd := exec.Command(exe, "c12-child", jobPath)
+	var stdout bytes.Buffer
+	stderr := &c12CapBuf{cap: 1 << 20}
+	cmd.Stdout = &stdout
+	cmd.Stderr = stderr
+	done := make(chan struct{})
+	if err := cmd.Start(); err != nil {
+		return nil, 0, "start: " + err.Error()
+	}
+	go func() { cmd.Wait(); close(done) }()
+	select {
+	case <-done:
+	case <-time.After(10 * time.Minute):
+		cmd.Process.Kill()
+		<-done
+	}
+	finished := false
+	for _, l := range strings.Split(stdout.String(), "\n") {
+		if l == "C12EVO done" {
+			finished = true
+		}
+		if !strings.HasPrefix(l, "C12EVO ") {
+			continue
+		}
+		f := strings.SplitN(l, " ", 3)
+		if len(f) == 3 {
+			var r c12EvoResult
+			if json.Unmarshal([]byte(f[2]), &r) == nil {
+				results = append(results, r)
+			}
+		}
+	}
+	if finished {
+		return results, -1, ""
+	}
+	eb := stderr.Bytes()
+	crashText = "child ended without finishing"
+	if m := c12CrashRe.Find(eb); m != nil {
+		crashText = string(m)
+	}
+	return results, len(results), crashText + " :: " + c12Tail(eb, 500)
 }
